@@ -278,14 +278,15 @@ def check_cache(ctx, R="C02-CACHE"):
 def check_api(ctx):
     R = "C02-API"
     ctx.rule(R, "the public method forwards every option it accepts to the helper that implements it, under the same name (max_posterior_samples, n_prior_samples, "
-                "n_linear_samples, return_logprobs, return_all_logprobs, n_batches, randomize_prior_order; rng = self.rng, pool = self.pool), and the helpers forward "
+                "n_linear_samples, return_logprobs, return_all_logprobs, n_batches, randomize_prior_order; rng = self.rng, pool = self.pool) with the value it received - "
+                "each helper resolves its own defaults, and they differ between the in-memory and the file path -, and the helpers forward "
                 "n_linear_samples / n_batches to make_full_samples*.")
     TJ = "thejoker.thejoker"
     fn = ctx.prog.func(TJ, "TheJoker.rejection_sample", R)
     table = [("rejection_sample_inmem", ["max_posterior_samples", "n_linear_samples", "return_all_logprobs"]),
              ("rejection_sample_helper", ["n_prior_samples", "max_posterior_samples", "n_linear_samples", "return_logprobs", "n_batches", "randomize_prior_order", "return_all_logprobs"])]
     for callee, names in table:
-        gaps = A.forwarding_gaps(fn, callee, names)
+        gaps = A.forwarding_gaps(fn, callee, names, as_received=True)
         ctx.check(R, fn, "rejection_sample calls %s once" % callee, len(gaps) == 1, "found %d calls" % len(gaps), key="call:" + callee, nontrivial=False)
         for c, missing, wrong in gaps:
             ctx.check(R, c, "rejection_sample forwards its options to %s" % callee, not missing and not wrong,
@@ -296,11 +297,11 @@ def check_api(ctx):
     for mod, q, callee, names in ((_rej.LH, "rejection_sample_inmem", "make_full_samples_inmem", ["n_linear_samples"]), (_rej.MP, "rejection_sample_helper", "make_full_samples", ["n_linear_samples", "n_batches"]),
                                   (_rej.LH, "iterative_rejection_inmem", "make_full_samples_inmem", ["n_linear_samples"]), (_rej.MP, "iterative_rejection_helper", "make_full_samples", ["n_linear_samples", "n_batches"])):
         f = ctx.prog.func(mod, q, R)
-        for c, missing, wrong in A.forwarding_gaps(f, callee, names):
+        for c, missing, wrong in A.forwarding_gaps(f, callee, names, as_received=True):
             ctx.check(R, c, "%s forwards %s to %s" % (q, names, callee), not missing and not wrong, "not forwarded: %s %s" % (missing, {k: A.unparse(v) for k, v in wrong.items()}), key="fw:%s:%s" % (q, callee))
     for mod, q, callee, names in ((_rej.MP, "make_full_samples", "run_worker", ["n_batches", "samples_idx", "rng"]), (_rej.MP, "marginal_ln_likelihood_helper", "run_worker", ["n_batches", "samples_idx", "n_prior_samples"])):
         f = ctx.prog.func(mod, q, R)
-        for c, missing, wrong in A.forwarding_gaps(f, callee, names):
+        for c, missing, wrong in A.forwarding_gaps(f, callee, names, as_received=True):
             ctx.check(R, c, "%s forwards %s to run_worker" % (q, names), not missing and not wrong, "not forwarded: %s %s" % (missing, {k: A.unparse(v) for k, v in wrong.items()}), key="fw:%s:run_worker" % q)
 
 
@@ -339,6 +340,11 @@ def run(ctx):
     from .C07 import _Relabel
     check_batch_tasks(_Relabel(ctx, {"C16-P": "C02-PART"}))
     check_run_worker(_Relabel(ctx, {"C16-RUN": "C02-PART"}))
+    ctx.rule("C02-ROWS", "the batch readers return the requested rows in the requested order (shared with C12-COL): an accepted index then selects the rows of the samples "
+                         "whose likelihood entered the acceptance test.")
+    from .C12 import _reader_checks
+    _reader_checks(ctx, "C02-ROWS", "read_batch_slice", "slice")
+    _reader_checks(ctx, "C02-ROWS", "read_batch_idx", "idx")
     ctx.rule("C02-UNPACK", "the returned table is built from the kernel rows without touching the values: unpack attaches units[k] to column k unchanged (shared with C17-PACK).")
     from .C17 import check_pack
     check_pack(_Relabel(ctx, {"C17-PACK": "C02-UNPACK"}))
